@@ -124,7 +124,9 @@ example : ({ blocked := true, rep := some { call := true, fn := some (.leaf 3 []
 
 /-- building a functor from a spec never touches a slot variable, connection or cell; plain specs
     (`fn mem bref trk nest`) change nothing at all; `fwd g` only marks signal object `g`; only the owning
-    functors `ownT/ownK` take a trackable / scoped connection out of the name space -/
+    functors `ownT/ownK` take a trackable / scoped connection out of the name space; `ownG` (also an
+    owning functor: `ownSpec`) takes an owner id from the allocator and leaves the names alone
+    (`mkFun_effects_ownG`) -/
 theorem mkFun_effects (s s0 : St) (b : Bool) (spec : FSpec) (fn : Fun) (h : mkFun s b spec = .ok (fn, s0)) :
     (s0.S = s.S ∧ s0.C = s.C ∧ s0.impls = s.impls ∧ s0.depth = s.depth ∧ s0.steps = s.steps ∧
      s0.trace = s.trace ∧ s0.err = s.err) ∧
@@ -136,6 +138,22 @@ theorem mkFun_effects (s s0 : St) (b : Bool) (spec : FSpec) (fn : Fun) (h : mkFu
 example : mkFun { T := [(4, 9)], S := [(0, { isVoid := false, slot := {} })] } false (.ownT 3 4)
     = .ok (.owner 3 [9] [], { T := [], S := [(0, { isVoid := false, slot := {} })], ownedT := [9] }) := by
   simp [mkFun, aget, adel]
+
+/-- the functor owning a signal object (`ownG fid g`): the state changes in exactly two fields — one new
+    `ownedG` entry (a fresh owner id ↦ the name `g`, which stays in `G`) and the allocator; the functor holds
+    that owner id; it is built only for a live name that no functor owns yet.  Every other spec leaves
+    `ownedG` alone -/
+theorem mkFun_effects_ownG (s s0 : St) (b : Bool) (spec : FSpec) (fn : Fun) (h : mkFun s b spec = .ok (fn, s0)) :
+    ((∀ fid g, spec ≠ .ownG fid g) → s0.ownedG = s.ownedG) ∧
+    (∀ fid g, spec = .ownG fid g →
+      s0 = { s with ownedG := (s.next, g) :: s.ownedG, next := s.next + 1 } ∧ fn = .owner fid [] [s.next] ∧
+      (aget s.G g).isSome ∧ s.ownedG.any (fun p => p.2 = g) = false) :=
+  mkFun_ok_ownG s s0 b spec fn h
+
+example : mkFun { G := [(4, { obj := 9, fl := .I, impl := none, trk := 0, lvl := 0 })], next := 7 } false (.ownG 3 4)
+    = .ok (.owner 3 [] [7], { G := [(4, { obj := 9, fl := .I, impl := none, trk := 0, lvl := 0 })],
+                              ownedG := [(7, 4)], next := 8 }) := by
+  simp [mkFun, aget, St.fresh]
 
 
 /-- `slot<T>()`: the new variable is empty (no rep, not blocked); nothing else changes -/
@@ -847,17 +865,34 @@ example : execOp 1 { bodies := [], top := [] }
 
 /-- on every operation on slot variables (`slotWrites op ≠ none`) the statement-level specification `S`
     (`Sigc.Spec`) and the mechanism model `P`, started from states with the same slot variables, trackables,
-    signal handles, scoped connections and allocator, give the same answer and the same slot variables afterwards — so every theorem of
-    this file about `aget s'.S _` and the answer `r` of such an operation holds verbatim for `S` -/
+    signal handles, scoped connections, functor-owned signal objects and allocator, give the same answer and the
+    same slot variables afterwards — so every theorem of this file about `aget s'.S _` and the answer `r` of such
+    an operation holds verbatim for `S`.
+
+    (model round 3: the statement of the previous model round had no hypothesis on `ownedG` (the field did not exist).
+    Building a functor (`mkS`, `setS` with `fwd g` / `ownG fid g`) now reads it (refusal `owned`), so agreement on
+    `ownedG` is a necessary hypothesis: `spec_agrees_needs_ownedG` below is the witness) -/
 theorem spec_agrees_on_slot_ops (l : Spec.LSt) (s : St) (hS : l.S = s.S) (hT : l.T = s.T) (hG : l.G = s.G)
-    (hK : l.K = s.K) (hN : l.next = s.next) (op : Op) (ws : List Nat) (hw : slotWrites op = some ws) :
+    (hK : l.K = s.K) (hN : l.next = s.next) (hO : l.ownedG = s.ownedG)
+    (op : Op) (ws : List Nat) (hw : slotWrites op = some ws) :
     (Spec.stepSimple l op).map (fun p => (p.1.S, p.2)) = (stepSimple s op).map (fun p => (p.1.S, p.2)) :=
-  spec_agrees_slotOp l s hS hT hG hK hN op ws hw
+  spec_agrees_slotOp l s hS hT hG hK hN hO op ws hw
 
 example : (Spec.stepSimple { S := [(0, { isVoid := false, slot := { blocked := true, rep := some { call := true, fn := some (.leaf 3 []) } } }),
                                    (1, { isVoid := false, slot := {} })], k1 := true } (.asgS 1 0)).map (fun p => (p.1.S, p.2))
     = (stepSimple { S := [(0, { isVoid := false, slot := { blocked := true, rep := some { call := true, fn := some (.leaf 3 []) } } }),
                           (1, { isVoid := false, slot := {} })], err := some "x" } (.asgS 1 0)).map (fun p => (p.1.S, p.2)) :=
-  spec_agrees_on_slot_ops _ _ rfl rfl rfl rfl rfl _ [1] rfl
+  spec_agrees_on_slot_ops _ _ rfl rfl rfl rfl rfl rfl _ [1] rfl
+
+/-- the witness: same `S T G K next`, different `ownedG` — `slot<int()>(sig0.make_slot())` of a non-trackable
+    signal that a functor owns is refused (`owned`) on one side and built on the other -/
+theorem spec_agrees_needs_ownedG :
+    ∃ (l : Spec.LSt) (s : St) (op : Op) (ws : List Nat),
+      l.S = s.S ∧ l.T = s.T ∧ l.G = s.G ∧ l.K = s.K ∧ l.next = s.next ∧ slotWrites op = some ws ∧
+      (Spec.stepSimple l op).map (fun p => (p.1.S, p.2)) ≠ (stepSimple s op).map (fun p => (p.1.S, p.2)) :=
+  ⟨{ G := [(0, { obj := 9, fl := .I, impl := none, trk := 0, lvl := 0 })], ownedG := [(5, 0)] },
+   { G := [(0, { obj := 9, fl := .I, impl := none, trk := 0, lvl := 0 })] },
+   .mkS 1 "I" (.fwd 0), [1], rfl, rfl, rfl, rfl, rfl, rfl, by
+     simp [Spec.stepSimple, stepSimple, Spec.mkFun, mkFun, aget, aset, Flavour.isVoid, Flavour.isTrackable]⟩
 
 end Sigc.C15
